@@ -268,7 +268,9 @@ class Registry:
         n = None
         for k, v in self.__dict__.get('select_branches', {}).items():
             if owner.endswith(k) or k.endswith(owner):
-                n = v
+                if len(v) > 1:
+                    return None          # several select! in one function: the value carries its own arity (meta)
+                n = v[0][1]
         if n is None:
             return None
         e = EnumDef('Out', owner + '::__tokio_select_util', [('_%d' % i, i, None) for i in range(n)] + [('Disabled', n, None)])
@@ -378,11 +380,12 @@ class ProgramIndex:
         for b in self.prog.bodies:
             self._index(b)
         sb = {}
-        for k, v in self.prog.simple_consts.items():
+        for k, vs in self.prog.simple_consts.items():
             if k.endswith('::BRANCHES'):
-                mm = re.match(r'^(\d+)_u32$', v)
-                if mm:
-                    sb[norm_callee(k[:-len('::BRANCHES')])] = int(mm.group(1))
+                for ln, v in vs:
+                    mm = re.match(r'^(\d+)_u32$', v)
+                    if mm:
+                        sb.setdefault(norm_callee(k[:-len('::BRANCHES')]), []).append((ln, int(mm.group(1))))
         registry.select_branches = sb
 
     def _index(self, b):
@@ -479,7 +482,9 @@ class ProgramIndex:
                 return hits[0]
             # inherent impls on type aliases (`impl DefaultIntegerConfigOption` printed as `ConfigOption::..`):
             # a method name that only one impl block in the crate defines
-            if len(segs) >= 2 and cands:
+            tdef = self.reg.struct_def(segs[-2]) or self.reg.enum_def(segs[-2]) if len(segs) >= 2 else None
+            crate_type = tdef is not None and not tdef.path.startswith(('cln_rpc', 'std', 'tokio', 'serde'))
+            if len(segs) >= 2 and cands and crate_type:
                 names = set(b.name for ks, b in cands)
                 if len(names) == 1 and all(getattr(b, 'impl_of', None) is not None and b.impl_of[0] is None for ks, b in cands):
                     return cands[0][1]
@@ -493,16 +498,24 @@ class ProgramIndex:
         return None
 
     # ---- constants --------------------------------------------------------------------
-    def simple_const(self, raw, name):
+    def simple_const(self, raw, name, body=None):
+        """Value text of a one-line const.  Several block-scoped consts may share one printed path (every
+        tokio::select! defines its own BRANCHES): the definition closest above the using body is meant."""
         sc = self.prog.simple_consts
         if not sc:
             return None
-        if raw in sc:
-            return sc[raw]
-        for k, v in sc.items():
-            if raw.endswith('::' + k) or name.endswith('::' + norm_callee(k)) or norm_callee(k) == name:
-                return v
-        return None
+        cands = sc.get(raw)
+        if cands is None:
+            for k, v in sc.items():
+                if raw.endswith('::' + k) or name.endswith('::' + norm_callee(k)) or norm_callee(k) == name:
+                    cands = v
+                    break
+        if not cands:
+            return None
+        if len(cands) == 1 or body is None:
+            return cands[-1][1] if body is None else cands[0][1]
+        above = [c for c in cands if c[0] < body.lineno]
+        return (above[-1] if above else cands[0])[1]
 
     def const_body(self, raw, name, body):
         b = self.consts.get(raw) or self.consts.get(name)
